@@ -157,12 +157,36 @@ def run(ctx, res):
                     tt = b.blocks[sw]["t"]
                     if tt["k"] != "switch" or tt["o"]["k"] == "const":
                         continue
+                    found = None
                     for d in defs_of(b, tt["o"]["p"]["l"]):
                         r = d[2]
+                        pl = None
                         if d[1] != "t" and r["k"] == "use" and r["o"]["k"] != "const":
-                            fl_ = [e for e in r["o"]["p"]["pr"] if isinstance(e, dict) and e.get("n")]
+                            pl = r["o"]["p"]
+                        elif d[1] == "t" and r.get("args") and r["args"][0]["k"] != "const" and callee_names(r) and callee_names(r)[-1].rsplit("::", 1)[-1] in ("take", "replace", "swap", "get", "load", "fetch_and", "fetch_or"):
+                            # `if std::mem::take(&mut self.flag) { seek }`: the flag is read (and cleared) through a reference
+                            cur = r["args"][0]["p"]["l"]
+                            for _ in range(6):
+                                nxt = None
+                                for d2 in defs_of(b, cur):
+                                    if d2[1] != "t" and d2[2]["k"] == "ref":
+                                        if d2[2]["p"]["pr"] == ["*"]:
+                                            nxt = d2[2]["p"]["l"]        # reborrow
+                                        else:
+                                            pl = d2[2]["p"]
+                                    elif d2[1] != "t" and d2[2]["k"] == "use" and d2[2]["o"]["k"] != "const" and not d2[2]["o"]["p"]["pr"]:
+                                        nxt = d2[2]["o"]["p"]["l"]
+                                if pl is not None or nxt is None:
+                                    break
+                                cur = nxt
+                        if pl is not None:
+                            fl_ = [e for e in pl["pr"] if isinstance(e, dict) and e.get("n")]
                             if fl_ and "TrackWrite" in (fl_[-1].get("a") or ""):
-                                guard = fl_[-1]["n"]
+                                found = fl_[-1]["n"]
+                    if found:
+                        guard = found
+                    elif tt["o"]["p"].get("ty") == "bool" and not guard:
+                        guard = "?"
                 lazy_flag = guard
     ctor = {"Iter": "iter", "ChunkIter": "chunks"}
     for ty in ("Iter", "ChunkIter"):
@@ -201,6 +225,9 @@ def run(ctx, res):
             continue
         if lazy_flag == "":
             res.ok("R19.drop", ty, "", "write_chunk seeks the shared file to SeekFrom::End(0) before every write")
+            continue
+        if lazy_flag == "?":
+            res.bad("R19.drop", ty, "write_chunk seeks back to the end of the file only under a condition that is not a flag of the writer set by FileOrMemBuf::%s(): on the other path an append after reading overwrites earlier chunks" % ctor[ty])
             continue
         # guarded by a flag: the constructor of this reader must set it before the reader exists
         mo = [(k, b) for k, b in fg.bodies.items() if b.owner.endswith("file_or_mem_buf::FileOrMemBuf::<T>::%s" % ctor[ty]) and b.id == b.owner]
